@@ -7,7 +7,7 @@ PROP = dict(
         targets=[
             dict(name="hs", pkg="internal/handshake", test="TestVerifC05HS", files=["mc/c05/hs/*.go"],
                  parts=["ref-vectors", "suites", "ku-derive", "retry-tag",
-                        "keyupdate-v1", "keyupdate-v1-i2", "keyupdate-v1-chacha", "keyupdate-v2"]),
+                        "keyupdate-v1", "keyupdate-v1-i2", "keyupdate-v1-late", "keyupdate-v1-i2-late", "keyupdate-v1-chacha", "keyupdate-v2"]),
             dict(name="quic", pkg=".", test="TestVerifC05Quic", files=["mc/c05/root/*.go"],
                  parts=["initial", "levels", "tamper"]),
             dict(name="ack", pkg="internal/ackhandler", test="TestVerifC05Ack", files=["mc/c05/ack/*.go"],
